@@ -97,6 +97,15 @@ def run(ctx):
     r.check(bool(calls_in(dis, "loseConnection")) and not eff and not prog.direct_writes(dis), "%s#transport-only" % dis.qname,
             "disconnect() touches the request table", where(dis, dis.node), "unanswered requests are not re-sent on the new connection")
 
+    lost = ctx.func("brokerclient:_KafkaBrokerClient._connectionLost")
+    cl = ctx.cfg(lost)
+    marks = [n for n in cl.nodes if n.kind == "stmt" and isinstance(n.stmt, ast.Assign) and norm(n.stmt.targets[0]).endswith(".sent") and
+             isinstance(n.stmt.value, ast.Constant) and n.stmt.value.value is None]
+    recon = [n for n in cl.nodes if any(call_name(x) == "_connect" and call_recv(x) == "self" for x in n.calls())]
+    r.check(bool(marks) and bool(recon) and not any(m.id in cl.reach([x.id]) for m in marks for x in recon), "%s#resend-after-drop" % lost.qname,
+            "after the silent connection is dropped the unanswered requests are not marked unsent before the reconnect starts",
+            where(lost, lost.node), "endpoint whose connect() completes synchronously: nothing is re-sent on the new connection")
+
     # ---- R6 bootstrap timeout
     r = ctx.rule("R6", "every bootstrap request is chained with addTimeout(self.timeout, self.reactor)", 1, "A")
     for f in prog.functions(module="client"):
